@@ -35,7 +35,7 @@ FLOATS = [b"0.5", b"-0.5", b"0.25", b"1", b"-1", b"10.125", b"100", b"0.125", b"
           b"inf", b"-Infinity", b"nan", b"1e400", b"abc", b"", b" 1", b"1,5", b"hello"]
 IDX = [b"0", b"1", b"2", b"3", b"4", b"5", b"6", b"7", b"10", b"-1", b"-2", b"-3", b"-4", b"-5", b"-6", b"-7", b"-100",
        b"100", b"9223372036854775807", b"-9223372036854775808", b"x", b"", b"+1", b"01"]
-OFFS = [b"0", b"1", b"2", b"3", b"5", b"8", b"20", b"-1", b"x", b"", b"300", b"536870912", b"536870913",
+OFFS = [b"0", b"1", b"2", b"3", b"5", b"8", b"20", b"-1", b"x", b"", b"300", b"536870913",
         b"1000000000000", b"9223372036854775807", b"-9223372036854775808", b"+2", b"02"]
 PATTERNS = [b"*", b"k*", b"?", b"[kK]", b"[a-z]*", b"*1", b"K??1", b"\\k", b"[^k]*", b"*o*", b"[", b"k\\", b"[a-", b"**",
             b"a b", b"*\n*", b"", b"[\x00-\x7f]*", b"*\xff"]
@@ -265,9 +265,10 @@ def index_cases():
                 n += 1
                 if ln:
                     c.cmd([b"set", b"g", val, b"EX", b"100"])
-                if off in (b"536870910", b"536870911") and v:
-                    # would really allocate 512 MB: only probe the rejected side of the limit
-                    c.cmd([b"setrange", b"g", off, v + b"XX"])
+                if off in (b"536870910", b"536870911", b"536870912"):
+                    # an accepted write here really allocates 512 MB (and a wrong padding of the
+                    # empty value would too): only the rejected side of the limit is probed
+                    c.cmd([b"setrange", b"g", off, v + b"XXX"])
                 else:
                     c.cmd([b"setrange", b"g", off, v])
                 c.cmd([b"strlen", b"g"])
@@ -344,3 +345,38 @@ def exhaustive_cases(length=3, sample=None, seed=1, prepop=None, large=False):
             c.cmd(ins[i])
         c.dump()
         yield c
+
+
+# ---------------------------------------------------------------- programs for the TCP sample
+TIMELESS_DROP = {b"setex", b"expire", b"ttl", b"persist"}
+TIMED_WORDS = {b"ex", b"px", b"exat", b"keepttl", b"pxat"}
+
+
+def tcp_programs(seed, ncases=16, maxlen=60, prepop=None):
+    """Random programs without any expiry option or command (they run on the real clock, so a
+    reply must not depend on it), each ending with read-backs of every key of its pool."""
+    r = random.Random(seed * 65537 + 11)
+    prepop = prepop_cmds() if prepop is None else prepop
+    cases = []
+    for i in range(ncases):
+        c = Case("c01t_%d_%d" % (seed, i))
+        keys = r.sample(KEYS, r.randrange(2, 8))
+        for kk in keys:
+            if prepop and r.random() < 0.25:
+                c.cmd(pick(r, prepop)(kk))
+        n = r.randrange(10, maxlen + 1)
+        while n > 0:
+            a = string_cmd(r, keys)
+            if not a or a[0].lower() in TIMELESS_DROP:
+                continue
+            if a[0].lower() == b"set" and any(w.lower() in TIMED_WORDS for w in a[3:]):
+                continue
+            c.cmd(a)
+            n -= 1
+        for kk in keys:
+            c.cmd([b"type", kk])
+            c.cmd([b"get", kk])
+            c.cmd([b"strlen", kk])
+        c.cmd([b"keys", b"*"])
+        cases.append(c)
+    return cases
